@@ -85,6 +85,21 @@ def check(case):
         require(not is_raised(again) and again.units == b, "a Permeance object converted a second time (%s->%s) gives %r", a, b, again)
         require_close(again.value, ab, TOL, "a Permeance object converted %s->%s for another component first, then for M=%r" % (a, b, mw))
     require(p.value == v and p.units == a, "convert modified the Permeance object it was called on: %r", p)
+    # a user-defined component that has been used and is then given another molar mass - in place, or on a copy - converts with
+    # the NEW molar mass (nothing may be remembered on the component)
+    if "builtin" not in case["component"]:
+        import copy
+
+        mw2 = mw * 1.75 + 0.5
+        twin = copy.copy(comp)
+        twin.molecular_weight = mw2
+        deep = copy.deepcopy(comp)
+        deep.molecular_weight = mw2
+        comp.molecular_weight = mw2
+        for label, c_ in (("edited in place", comp), ("a copy.copy given another molar mass", twin), ("a copy.deepcopy given another molar mass", deep)):
+            got = _conv(v, a, b, c_)
+            require_close(got, v * _factor(a, mw2) / _factor(b, mw2), TOL, "%r %s->%s for a used component %s (M %r -> %r)" % (v, a, b, label, mw, mw2))
+        comp.molecular_weight = mw
     # conversions that do not involve the mass unit need no component
     if "kg/(m2*h*kPa)" not in (a, b):
         require_close(_conv(v, a, b, None), ab, TOL, "%s->%s without component" % (a, b))
